@@ -9,7 +9,7 @@ from vf.writers import vmxcrypt as w
 
 ID = "C15"
 LEVEL = "fault_enumeration"
-STEP_BUDGET = 5_000_000
+STEP_BUDGET = 4_000_000_000  # a case is thousands of unlock calls; termination is C11's subject
 ANCHOR_FILES = ["dissect/hypervisor/descriptor/vmx.py"]
 RULE = (
     "An independent VMX encryptor (AES-CBC + HMAC + PBKDF2 via pycryptodome/hashlib, key-safe / crypto-dict / URL "
